@@ -337,7 +337,7 @@ def check(run):
     stim_by_id = {s["id"]: s for s in stimuli}
     trace = os.path.join(wd, "sched.ndjson")
     stats_p = os.path.join(wd, "sched_stats.json")
-    vlib.run_bin("h_vicinal", ["sched", os.path.join(wd, "stimuli.ndjson"), trace, stats_p], timeout=1200 if thorough else 300)
+    vlib.run_bin("h_vicinal", ["sched", os.path.join(wd, "stimuli.ndjson"), trace, stats_p], timeout=2400 if thorough else 900)
     stats = json.load(open(stats_p))
     run.cov["sched"] = {k: stats[k] for k in ("scenarios", "scripted", "steps", "drift", "hook_events")}
     run.cov["sched"]["drifted"] = stats["drifted"][:10]
